@@ -23,12 +23,14 @@ from sim.core.seams import Seams
 MARKUP = '<b id=simx>&"\'</b>'
 MSGS = {'plain': 'division by zero', 'markup': 'bad ' + MARKUP + ' value', 'template': '{tb_str} {#mon_files}{.}{/mon_files} {~lb}',
         'nonascii': 'défaut ☃ 中文', 'colon': 'a: b: c', 'multiline': 'line one\nline two\n  indented', 'empty': '',
-        'percent': '100%s %(x)d', 'long': 'm' * 3000}
-EXCS = ['ZeroDivisionError', 'ValueError', 'KeyError', 'ImportError', 'ModuleNotFoundError', 'AttributeError', 'NameError',
+        'percent': '100%s %(x)d', 'long': 'm' * 3000, 'ignored': 'job 7 ignored', 'exception-word': 'Exception ignored'}
+EXCS = ['Exception', 'Exception', 'ZeroDivisionError', 'ValueError', 'KeyError', 'ImportError', 'ModuleNotFoundError', 'AttributeError', 'NameError',
         'TypeError', 'RuntimeError', 'OSError', 'UnicodeDecodeError', 'RecursionError', 'CustomError']
 FILES = ['/app/main.py', '/app/pkg/<b id=simx>.py', '/app/ünï.py', '/app/a&b.py', '/app/{tmpl}.py', '/app/' + 'd' * 300 + '.py',
          '/app/with space.py', "/app/quote'\".py", '{stdlib}/os.py', '{stdlib}/json/decoder.py', '{werkzeug}/wrappers/base_response.py',
          '{clastic}/application.py', '{clastic}/_clastic_assets/common.css',
+         # names under the library directories that need escaping
+         '{stdlib}/site-packages/<b id=simx>&.py', '{werkzeug}/plug&in<b id=simx>.py', "{clastic}/it's \"quoted\".py", '{stdlib}/ünï/mod.py',
          # several spellings of one file
          '/app/pkg/run.py', '/app/pkg/./run.py', '/app/pkg//run.py', '/app/pkg/sub/../run.py', 'run.py', '{cwd}/run.py']
 
